@@ -183,7 +183,7 @@ func (in *c19Inst) matches(o *c19Obs, r *Result) bool {
 func checkC19(c *Ctx) {
 	c.Assume("a literal pattern against an array subject (or array element) is `array == literal`, a runtime error for `==`: both 'runtime error' (positions compared left to right, or all compared) and 'no match' are accepted; null literals never err")
 	c.Assume("patterns other than literals (number, string, null, true), identifiers and array patterns are outside the model; an identifier bound twice in one pattern is outside the model")
-	c.Assume("a body refers only to names bound by every alternative of its case")
+	c.Assume("a body reads only names that some alternative of its case or of an earlier case binds; where the alternative that matched does not bind the name it must denote the program's preset global (a name bound only by a pattern that did not match is not visible); names no pattern binds are not read")
 	c.Assume("literal matching is the language's own `==`: the table of scalar comparisons the model relies on (DESIGN.md 3.4) is first confirmed on the real code; runs that depend on a deviating pair are skipped (C05 owns `==`)")
 	c.Assume("after an expression body the visibility of the bound names is C08's claim (F8): only checked after block bodies and when no case matches; frame balance (Push/Pop events, final depth) likewise only there")
 	c.Assume("numbers 2 and 5, the string, and the identifier names of the model are instantiated per seed (non-negative numbers that print as written, non-numeric strings, ASCII identifiers that are no keywords)")
@@ -408,7 +408,8 @@ func checkC19(c *Ctx) {
 
 	c.Set("exhaustive", true)
 	c.Set("rule", "TLC enumerates case lists (tier 1: one case, <= 2 ordered alternatives from 42 patterns (literals 1, 2, 'a', null, true; identifier; array patterns of length 0..2, nested to depth 2, identifiers at every position), every body kind; "+
-		"tier 2: two cases over a pool of 7 (thorough 12) patterns with <= 2 alternatives, 5 body schemes; tier 3: three cases over 12 (thorough 24) alternative lists, 5 body schemes) x the 10 subjects; "+
+		"tier 2: two cases over a pool of 7 (thorough 12) patterns with <= 2 alternatives plus the bind-then-fail lists [x,2] and [x,2],[2,y], 6 body schemes; tier 3: three cases over 13 (thorough 25) alternative lists, 6 body schemes) x the 10 subjects; "+
+		"bodies also read names bound only by an alternative or an earlier case that does not match (tier 1: every name of the case; scheme G in tiers 2, 3), expected: the preset global; "+
 		"one real run per (case list, subject); non-trivial = some case is selected; distinct by program text")
 	c.Set("checker_cmd", "tlc MC_Match; replay `print match (subject) { cases }` through lang.EvalProgram in worker subprocesses, with Push/Pop events")
 	c.Set("runs_per_tier", perTier)
